@@ -33,9 +33,10 @@ func (s RedactableString) StripMarkers() string {
 	r := ReStripMarkers.ReplaceAllString(string(s), "")
 	// In a string that is not well-formed, a marker can sit between
 	// the two parts of another, truncated one: removing it puts a new
-	// marker together. No marker must be left.
-	for ReStripMarkers.MatchString(r) {
-		r = ReStripMarkers.ReplaceAllString(r, "")
+	// marker together, out of bytes that are data. It is escaped, as
+	// markers in data are everywhere else: no marker must be left.
+	if ReStripMarkers.MatchString(r) {
+		r = ReStripMarkers.ReplaceAllString(r, EscapeMarkS)
 	}
 	return r
 }
@@ -71,8 +72,8 @@ type RedactableBytes []byte
 func (s RedactableBytes) StripMarkers() []byte {
 	r := ReStripMarkers.ReplaceAll([]byte(s), nil)
 	// See RedactableString.StripMarkers.
-	for ReStripMarkers.Match(r) {
-		r = ReStripMarkers.ReplaceAll(r, nil)
+	if ReStripMarkers.Match(r) {
+		r = ReStripMarkers.ReplaceAll(r, EscapeMarkBytes)
 	}
 	return r
 }
